@@ -302,8 +302,8 @@ def classify_hang(inst):
     if noise_only and len(solver.inactive) > 10 * len(cs) and max(abs(v.position()) for v in vs) >= 1e5:
         return "F6"
     # F5: the outer loop of solve(): the costs of successive satisfy() passes form a 2-cycle of rounding noise more than 1e-4 apart
-    if not noise_only:
-        return None
+    if not noise_only or max(abs(v.position()) for v in vs) * max(v.weight for v in vs) < 1e15:
+        return None                     # rounding noise of weight x displacement^2 cannot reach 1e-4 at such magnitudes
     costs = []
     signal.alarm(3)
     try:
